@@ -59,7 +59,7 @@ def pf_mod():
     return sys.modules["pandapipes.pipeflow"]
 
 
-def run_pipeflow(net, mode, use_numba, capture=None):
+def run_pipeflow(net, mode, use_numba, capture=None, amb=None):
     """real pipeflow; capture: list that receives (branch_pit, node_pit) copies at the first thermal
     check_infeed_number (i.e. after the real calculate_derivatives_thermal + hooks of the first iteration)"""
     import pandapipes as pp
@@ -71,16 +71,21 @@ def run_pipeflow(net, mode, use_numba, capture=None):
             capture.append((net["_active_pit"]["branch"].copy(), node_pit.copy()))
         return orig(node_pit)
     mod.check_infeed_number = wrapped
+    kw = dict(TIGHT)
+    if amb and amb[0] == "call":
+        kw["ambient_temperature"] = amb[1]
+    elif amb and amb[0] == "user":
+        pp.set_user_pf_options(net, ambient_temperature=amb[1])
     try:
         if mode == "heat":
             # temperature calculation on a handed-in hydraulic solution: hydraulics first, sol_vec from the pit
             import pandapipes.idx_branch as ib
             import pandapipes.idx_node as inode
-            pp.pipeflow(net, mode="hydraulics", use_numba=use_numba, **TIGHT)
+            pp.pipeflow(net, mode="hydraulics", use_numba=use_numba, **kw)
             sol = np.concatenate([net["_pit"]["node"][:, inode.PINIT].copy(), net["_pit"]["branch"][:, ib.MDOTINIT].copy()])
-            pp.pipeflow(net, sol_vec=sol, mode="heat", use_numba=use_numba, **TIGHT)
+            pp.pipeflow(net, sol_vec=sol, mode="heat", use_numba=use_numba, **kw)
         else:
-            pp.pipeflow(net, mode=mode, use_numba=use_numba, **TIGHT)
+            pp.pipeflow(net, mode=mode, use_numba=use_numba, **kw)
         return "ok"
     except Exception as e:  # noqa: BLE001
         LAST_EXC[0] = "%s: %s" % (type(e).__name__, str(e)[:200])
@@ -322,12 +327,13 @@ def identity_rows(net):
     return rows
 
 
-def monitor_net(ctx, spec, net, mode, numba, tag=""):
+def monitor_net(ctx, spec, net, mode, numba, tag="", amb=None):
     """evaluate the property's conclusions on a converged net -> number of violations reported"""
     import pandapipes.idx_branch as ib
     import pandapipes.idx_node as inode
     n0 = len(ctx.violations) + len(ctx.known_hits)
-    replay = {"spec": spec, "mode": mode, "use_numba": numba, "options": TIGHT}
+    replay = {"spec": spec, "mode": mode, "use_numba": numba, "options": TIGHT,
+              "ambient": list(amb) if amb else ["default", 293.15]}
     # --- mixing
     eb = M.energy_balance(net)
     worst = None
@@ -344,6 +350,31 @@ def monitor_net(ctx, spec, net, mode, numba, tag=""):
                       "%.6f K (off by %.4f K; residual %.3f W)" % ([(round(a, 4), round(b, 3)) for a, b in streams], T, Tstar,
                                                                    T - Tstar, res),
                       dict(replay, node=i, observed_T=T, expected_T=Tstar, streams=streams))
+    # --- ambient temperature column: the pipe's text_k, else the resolved option (the value the caller supplied)
+    exp_amb = amb[1] if amb else 293.15
+    opt_amb = float(net["_options"]["ambient_temperature"])
+    if not abs(opt_amb - exp_amb) <= 1e-12:
+        ctx.violation({"clause": "branch_cooling_law", "ambient": "option-resolution"},
+                      "ambient_temperature supplied as %s resolves to %r" % (replay["ambient"], opt_amb), replay)
+    bpf = net["_pit"]["branch"]
+    for tbl, (f, t) in net["_lookups"]["branch_from_to"].items():
+        if tbl == "pipe":
+            tk = net.pipe.text_k.values.astype(float)
+            want = np.repeat(np.where(np.isnan(tk), exp_amb, tk), net.pipe.sections.values.astype(int))
+        else:
+            want = np.full(t - f, exp_amb)
+        got = bpf[f:t, ib.TEXT]
+        ctx.count("ambient_rows_checked", t - f)
+        if tbl == "pipe":
+            ctx.count("pipes_without_text_k", int(np.sum(np.isnan(tk))))
+        if len(want) != len(got) or not np.all(np.abs(want - got) <= 1e-12):
+            k = int(np.argmax(np.abs(want - got))) if len(want) == len(got) else 0
+            ctx.violation({"clause": "branch_cooling_law", "ambient": "TEXT-column", "table": tbl},
+                          "%s row %d cools towards %r K, its ambient is %r K (text_k of the element, else the pipeflow option "
+                          "ambient_temperature = %r supplied via %s)" % (tbl, k, float(got[k]) if len(got) else None,
+                                                                        float(want[k]) if len(want) else None, exp_amb,
+                                                                        replay["ambient"][0]), replay)
+            break
     # --- cooling law per pit row (sections of pipes included)
     ident = identity_rows(net)
     cl = [(r, d, dat) for r, d, dat in M.cooling_law(net) if r not in ident]
@@ -467,7 +498,9 @@ def explore(ctx, n_nets, n_numba, with_corr=True):
             ctx.note("generator produced an unbuildable spec: %r" % (e,))
             continue
         cap = []
-        r = run_pipeflow(net, mode, numba, cap)
+        amb = None if i == 0 else rng.choice([None, ("call", 278.15), ("call", 303.15), ("user", 281.15), ("user", 299.15)])
+        ctx.count("ambient_via_" + (amb[0] if amb else "default"))
+        r = run_pipeflow(net, mode, numba, cap, amb)
         ctx.count("pipeflow_" + r)
         ctx.count("mode_" + mode)
         ctx.count("kind_" + spec.get("kind", "?"))
@@ -481,18 +514,18 @@ def explore(ctx, n_nets, n_numba, with_corr=True):
         nt = spec.get("kind") != "witness"
         ctx.case({"kind": "monitor", "net": spec.get("kind"), "mode": mode, "numba": numba,
                   "ops": len(spec["ops"]), "h": json.dumps(spec, sort_keys=True, default=str)}, nontrivial=nt)
-        monitor_net(ctx, spec, net, mode, numba)
+        monitor_net(ctx, spec, net, mode, numba, amb=amb)
         # mode "heat" on the stored hydraulic solution must give the same temperatures (reverse flow included)
         if i % 2 == 0 and mode == "sequential":
             ref = net.res_junction.t_k.values.copy()
             net2 = hgen.build(spec)
-            r2 = run_pipeflow(net2, "heat", numba)
+            r2 = run_pipeflow(net2, "heat", numba, None, amb)
             ctx.count("pipeflow_heat_" + r2)
             report_unexpected(ctx, spec, "heat", numba, r2)
             if r2 == "ok":
                 ctx.case({"kind": "monitor", "net": spec.get("kind"), "mode": "heat", "numba": numba,
                           "h": json.dumps(spec, sort_keys=True, default=str)}, nontrivial=nt)
-                monitor_net(ctx, spec, net2, "heat", numba)
+                monitor_net(ctx, spec, net2, "heat", numba, amb=amb)
                 t2 = net2.res_junction.t_k.values
                 d = np.nanmax(np.abs(t2 - ref)) if len(ref) else 0.0
                 if not d <= 1e-6 or np.any(np.isnan(t2) != np.isnan(ref)):
@@ -586,8 +619,9 @@ def replay(ctx, path):
         if cap:
             correspondence(ctx, [(spec, net, cap[0][0], cap[0][1], False)])
         return
-    r = run_pipeflow(net, rp.get("mode", "sequential"), rp.get("use_numba", False))
+    amb = tuple(rp["ambient"]) if rp.get("ambient") and rp["ambient"][0] != "default" else None
+    r = run_pipeflow(net, rp.get("mode", "sequential"), rp.get("use_numba", False), None, amb)
     if r != "ok":
         ctx.note("replay: pipeflow -> " + r)
         return
-    monitor_net(ctx, spec, net, rp.get("mode", "sequential"), rp.get("use_numba", False))
+    monitor_net(ctx, spec, net, rp.get("mode", "sequential"), rp.get("use_numba", False), amb=amb)
